@@ -1633,6 +1633,7 @@ struct Gen {
         o.a = (P.mode == MODE_SSE && !a64) ? d : pick(KIND_V, w);
         if (o.a < 0) return false;
         o.s = vsrc(true); if (o.s.t == S_NONE) return false;
+        if ((g_avoid_fwd & 512) && w < dsz && o.a == d && o.s.t == S_REG && o.s.v == d) return false;
         push(o); return true;
       }
       case 9: case 10: {
@@ -2072,7 +2073,7 @@ static u64 shape_count() {
 
 static bool g_keep_unreachable = true;
 // constructs the generator avoids (set by the Python side when the corresponding probe shows a defect)
-enum : u32 { AV_CMPXCHG = 1, AV_SAMEREG_NARROW = 2, AV_RMW32_ON64 = 4, AV_HI8 = 8, AV_KMOVW_TOG = 16, AV_VECARG_AVX512 = 32, AV_OR_MEM_M1 = 64, AV_AND_ZERO = 128 };
+enum : u32 { AV_CMPXCHG = 1, AV_SAMEREG_NARROW = 2, AV_RMW32_ON64 = 4, AV_HI8 = 8, AV_KMOVW_TOG = 16, AV_VECARG_AVX512 = 32, AV_OR_MEM_M1 = 64, AV_AND_ZERO = 128, AV_A64_TBL_MULTI = 256, AV_SAMEREG_NARROW_VEC = 512 };
 u32 g_avoid_fwd = 0;
 #define g_avoid g_avoid_fwd
 
@@ -3241,6 +3242,10 @@ static bool cfg_has_irreducible_hint(const Program& P) {
 }
 
 struct ViolationOut { std::string key, what, witness; u64 index; int input; };
+static void add_violation(std::vector<ViolationOut>& viols, const std::string& key, const std::string& what, const std::string& witness, u64 index) {
+  ViolationOut vo; vo.key = key; vo.what = what; vo.witness = witness; vo.index = index; vo.input = -1;
+  viols.push_back(vo);
+}
 
 static std::string json_map(const std::map<std::string, u64>& m) {
   std::string s = "{";
@@ -3258,10 +3263,930 @@ static std::string input_to_string(const RunInput& in) {
 }
 
 // @@A64-SECTION@@
+// ---------------------------------------------------------------------------------------------------------------
+// AArch64 emitter (compile only: there is no AArch64 CPU here, nothing is executed)
+// ---------------------------------------------------------------------------------------------------------------
+
+struct A64Emitter {
+  a64::Compiler& cc;
+  const Program& P;
+  std::vector<Reg> regs;
+  a64::Gp bufp;
+  std::vector<Label> labels;
+  struct Table { Label lab; std::vector<int> targets; };
+  std::vector<Table> tables;
+  std::vector<Label> data_labels;
+  std::vector<NodeRec> recs;
+
+  A64Emitter(a64::Compiler& c, const Program& p) : cc(c), P(p) {}
+
+  a64::Gp g(int v, int w) const { const a64::Gp& r = regs[v].as<a64::Gp>(); return w == 8 ? r.x() : r.w(); }
+  a64::Vec q(int v) const { return regs[v].as<a64::Vec>().q(); }
+  a64::Vec dreg(int v) const { return regs[v].as<a64::Vec>().d(); }
+
+  a64::Gp tmp(int w) { return w == 8 ? cc.new_gp64("t") : cc.new_gp32("t"); }
+
+  static a64::CondCode cond(int cc_) {
+    static const a64::CondCode m[CC__N] = { a64::CondCode::kEQ, a64::CondCode::kNE, a64::CondCode::kLO, a64::CondCode::kHS, a64::CondCode::kLS,
+      a64::CondCode::kHI, a64::CondCode::kLT, a64::CondCode::kGE, a64::CondCode::kLE, a64::CondCode::kGT, a64::CondCode::kMI, a64::CondCode::kPL };
+    return m[cc_];
+  }
+
+  a64::Mem mem(const MemRef& m, int size) {
+    if (m.off % size == 0 && m.off / size < 4096) return a64::ptr(bufp, m.off);
+    a64::Gp t = cc.new_gp64("addr");
+    cc.mov(t, Imm(m.off));
+    return a64::ptr(bufp, t);
+  }
+
+  a64::Gp srcreg(const Src& s, int w) {
+    if (s.t == S_REG) return g(s.v, w);
+    a64::Gp t = tmp(w);
+    if (s.t == S_IMM) cc.mov(t, Imm(w == 4 ? (i64)(u32)s.imm : s.imm));
+    else cc.ldr(t, mem(s.m, w));
+    return t;
+  }
+
+  void emit_cmp(int a, const Src& s, int w) {
+    if (s.t == S_IMM && (u64)s.imm < 4096) cc.cmp(g(a, w), Imm(s.imm));
+    else cc.cmp(g(a, w), srcreg(s, w));
+  }
+
+  void emit_op(const Op& o) {
+    int w = o.w < 4 ? 4 : o.w;
+    switch (o.opc) {
+      case O_MOV:
+        if (o.s.t == S_REG) cc.mov(g(o.d, w), g(o.s.v, w));
+        else if (o.s.t == S_IMM) cc.mov(g(o.d, w), Imm(w == 4 ? (i64)(u32)o.s.imm : o.s.imm));
+        else cc.ldr(g(o.d, w), mem(o.s.m, w));
+        break;
+      case O_STORE: cc.str(srcreg(o.s, w), mem(o.s2.m, w)); break;
+      case O_ALU: {
+        a64::Gp d = g(o.d, w);
+        if (o.s.t == S_IMM && (u64)o.s.imm < 4096 && o.sub <= A_SUB) { if (o.sub == A_ADD) cc.add(d, d, Imm(o.s.imm)); else cc.sub(d, d, Imm(o.s.imm)); break; }
+        a64::Gp s = srcreg(o.s, w);
+        switch (o.sub) {
+          case A_ADD: cc.add(d, d, s); break;
+          case A_SUB: cc.sub(d, d, s); break;
+          case A_AND: cc.and_(d, d, s); break;
+          case A_OR: cc.orr(d, d, s); break;
+          default: cc.eor(d, d, s); break;
+        }
+        break;
+      }
+      case O_UN: if (o.sub == U_NEG) cc.neg(g(o.d, w), g(o.d, w)); else cc.mvn(g(o.d, w), g(o.d, w)); break;
+      case O_SHI: {
+        a64::Gp d = g(o.d, w);
+        u32 n = (u32)o.imm % (8 * w); if (!n) n = 1;
+        if (o.sub == SH_SHL) cc.lsl(d, d, Imm(n)); else if (o.sub == SH_SHR) cc.lsr(d, d, Imm(n)); else cc.asr(d, d, Imm(n));
+        break;
+      }
+      case O_SHC: {
+        a64::Gp d = g(o.d, w), c = g(o.c, w);
+        if (o.sub == SH_SHL) cc.lsl(d, d, c); else if (o.sub == SH_SHR) cc.lsr(d, d, c); else cc.asr(d, d, c);
+        break;
+      }
+      case O_IMUL2: cc.mul(g(o.d, w), g(o.d, w), srcreg(o.s, w)); break;
+      case O_DIV: {
+        a64::Gp t = tmp(w), s = srcreg(o.s, w);
+        if (o.flag) cc.sdiv(t, g(o.d, w), s); else cc.udiv(t, g(o.d, w), s);
+        cc.msub(g(o.d2, w), t, s, g(o.d, w));
+        cc.mov(g(o.d, w), t);
+        break;
+      }
+      case O_LEA: {
+        a64::Gp d = g(o.d, w);
+        if (o.b >= 0) cc.add(d, g(o.a, w), g(o.b, w), a64::lsl(o.sub)); else cc.mov(d, g(o.a, w));
+        if (o.imm & 0xFFF) cc.add(d, d, Imm(o.imm & 0xFFF));
+        break;
+      }
+      case O_SETCC: emit_cmp(o.a, o.s, o.w2 < 4 ? 4 : o.w2); cc.cset(g(o.d, 4), cond(o.cc)); break;
+      case O_CMOV: emit_cmp(o.a, o.s, o.w2 < 4 ? 4 : o.w2); cc.csel(g(o.d, w), srcreg(o.s2, w), g(o.d, w), cond(o.cc)); break;
+      case O_MOVX: {
+        a64::Gp s = g(o.s.v, 4);
+        if (!o.flag) { if (o.w2 == 1) cc.uxtb(g(o.d, 4), s); else if (o.w2 == 2) cc.uxth(g(o.d, 4), s); else cc.mov(g(o.d, 4), s); }
+        else { if (o.w2 == 1) cc.sxtb(g(o.d, w), s); else if (o.w2 == 2) cc.sxth(g(o.d, w), s); else if (w == 8) cc.sxtw(g(o.d, 8), s); else cc.mov(g(o.d, 4), s); }
+        break;
+      }
+      case O_VMOV:
+        if (o.s.t == S_REG) cc.mov(q(o.d).b16(), q(o.s.v).b16()); else cc.ldr(q(o.d), mem(o.s.m, 16));
+        break;
+      case O_VSTORE: cc.str(q(o.a), mem(o.s2.m, 16)); break;
+      case O_VALU: {
+        a64::Vec d = q(o.d), a = q(o.a), b;
+        if (o.s.t == S_REG) b = q(o.s.v); else { b = cc.new_vec_q("vt"); cc.ldr(b, mem(o.s.m, 16)); }
+        switch (o.sub) {
+          case VA_PADDB: cc.add(d.b16(), a.b16(), b.b16()); break;
+          case VA_PADDW: cc.add(d.h8(), a.h8(), b.h8()); break;
+          case VA_PADDD: cc.add(d.s4(), a.s4(), b.s4()); break;
+          case VA_PADDQ: cc.add(d.d2(), a.d2(), b.d2()); break;
+          case VA_PSUBB: cc.sub(d.b16(), a.b16(), b.b16()); break;
+          case VA_PSUBW: cc.sub(d.h8(), a.h8(), b.h8()); break;
+          case VA_PSUBD: cc.sub(d.s4(), a.s4(), b.s4()); break;
+          case VA_PSUBQ: cc.sub(d.d2(), a.d2(), b.d2()); break;
+          case VA_PXOR: cc.eor(d.b16(), a.b16(), b.b16()); break;
+          case VA_PAND: cc.and_(d.b16(), a.b16(), b.b16()); break;
+          case VA_POR: cc.orr(d.b16(), a.b16(), b.b16()); break;
+          default: cc.bic(d.b16(), b.b16(), a.b16()); break;
+        }
+        break;
+      }
+      case O_VSHI: {
+        a64::Vec d = q(o.d), a = q(o.a);
+        u32 n = 1 + (u32)o.imm % 31;
+        if (o.sub < 3) cc.shl(d.s4(), a.s4(), Imm(n)); else if (o.sub < 6) cc.ushr(d.s4(), a.s4(), Imm(n)); else cc.sshr(d.s4(), a.s4(), Imm(n));
+        break;
+      }
+      case O_DFROMG: cc.fmov(dreg(o.d), g(o.a, 8)); break;
+      case O_DTOG: cc.fmov(g(o.d, 8), dreg(o.a)); break;
+      case O_DLOAD: cc.ldr(dreg(o.d), mem(o.s.m, 8)); break;
+      case O_DSTORE: cc.str(dreg(o.a), mem(o.s2.m, 8)); break;
+      case O_DMOV: cc.fmov(dreg(o.d), dreg(o.a)); break;
+      case O_CALL: {
+        const CalleeSig& sg = g_sigs[o.imm];
+        FuncSignature sig(CallConvId::kCDecl);
+        sig.set_ret(sg.ret == RK_VOID ? TypeId::kVoid : sg.ret == RK_U32 ? TypeId::kUInt32 : sg.ret == RK_U64 ? TypeId::kUInt64 : TypeId::kFloat64);
+        static const TypeId tids[] = { TypeId::kUInt8, TypeId::kUInt16, TypeId::kUInt32, TypeId::kUInt64, TypeId::kFloat64 };
+        for (int k = 0; k < sg.n; k++) sig.add_arg(tids[sg.kind[k]]);
+        InvokeNode* inv = nullptr;
+        a64::Gp target = cc.new_gp64("callee");
+        cc.mov(target, Imm((u64)0x100000u + (u64)o.imm * 64));
+        cc.invoke(Out(inv), target, sig);
+        if (!inv) break;
+        for (int k = 0; k < sg.n; k++) {
+          const Src& a = o.args[k];
+          if (a.t == S_IMM) inv->set_arg(k, Imm(a.imm)); else inv->set_arg(k, regs[a.v]);
+        }
+        if (o.d >= 0) inv->set_ret(0, regs[o.d]);
+        break;
+      }
+      default: break;
+    }
+    BaseNode* n = cc.cursor();
+    if (n && n->is_inst()) recs.push_back(NodeRec{ n, optypes_of(n->as<InstNode>()) });
+  }
+
+  void emit_term(int bi) {
+    const Term& t = P.blocks[bi].term;
+    int w = t.w < 4 ? 4 : t.w;
+    switch (t.kind) {
+      case T_FALL: break;
+      case T_JMP: cc.b(labels[t.target]); break;
+      case T_BR: emit_cmp(t.a, t.s, w); cc.b(cond(t.cc), labels[t.target]); break;
+      case T_DEC: cc.subs(g(t.a, w), g(t.a, w), Imm(1)); cc.b_ne(labels[t.target]); break;
+      case T_SWITCH: {
+        Table tb; tb.lab = cc.new_label(); tb.targets = t.targets;
+        a64::Gp idx = cc.new_gp64("sw_idx"), base = cc.new_gp64("sw_base"), tgt = cc.new_gp64("sw_tgt");
+        cc.and_(idx.w(), g(t.a, 4), Imm((i64)t.targets.size() - 1));
+        cc.adr(base, tb.lab);
+        cc.ldrsw(tgt, a64::ptr(base, idx, a64::lsl(2)));
+        cc.add(tgt, tgt, base);
+        JumpAnnotation* ann = cc.new_jump_annotation();
+        std::set<int> seen;
+        for (int x : t.targets) if (seen.insert(x).second) ann->add_label(labels[x]);
+        cc.br(tgt, ann);
+        tables.push_back(tb);
+        data_labels.push_back(tb.lab);
+        break;
+      }
+      case T_RET:
+        if (P.retval >= 0) cc.ret(regs[P.retval]); else cc.ret();
+        break;
+    }
+  }
+
+  void build() {
+    FuncSignature sig(CallConvId::kCDecl);
+    if (P.retval < 0) sig.set_ret(TypeId::kVoid);
+    else { const ValDef& d = P.vals[P.retval]; sig.set_ret(d.kind == KIND_D ? TypeId::kFloat64 : d.size == 4 ? TypeId::kUInt32 : TypeId::kUInt64); }
+    sig.add_arg(TypeId::kUIntPtr);
+    const SigClass& sc = kSigClasses[P.sigclass];
+    for (int i = 0; i < sc.ni; i++) sig.add_arg(sc.isz[i] == 8 ? TypeId::kUInt64 : TypeId::kUInt32);
+    for (int i = 0; i < sc.nd; i++) sig.add_arg(TypeId::kFloat64);
+    FuncNode* fn = cc.add_func(sig);
+    if (!fn) return;
+    bufp = cc.new_gp_ptr("buf");
+    regs.resize(P.vals.size());
+    for (size_t i = 0; i < P.vals.size(); i++) {
+      const ValDef& d = P.vals[i];
+      char nm[24]; snprintf(nm, sizeof nm, "v%zu", i);
+      if (d.kind == KIND_G) regs[i] = d.size == 8 ? cc.new_gp64(nm) : cc.new_gp32(nm);
+      else if (d.kind == KIND_V) regs[i] = cc.new_vec_q(nm);
+      else regs[i] = cc.new_vec_d(nm);
+    }
+    fn->set_arg(0, bufp);
+    for (size_t i = 0; i < P.argbind.size(); i++) if (P.argbind[i] >= 0) fn->set_arg(1 + i, regs[P.argbind[i]]);
+    int nb = (int)P.blocks.size();
+    labels.resize(nb);
+    for (int i = 0; i < nb; i++) labels[i] = cc.new_label();
+    for (int bi = 0; bi < nb; bi++) {
+      if (bi > 0) cc.bind(labels[bi]);
+      const Block& b = P.blocks[bi];
+      if (b.fuel) { cc.subs(g(P.fuel, 4), g(P.fuel, 4), Imm(1)); cc.b_mi(labels[nb - 1]); }
+      for (const Op& o : b.ops) emit_op(o);
+      emit_term(bi);
+    }
+    cc.end_func();
+    for (const Table& tb : tables) {
+      cc.bind(tb.lab);
+      for (int x : tb.targets) cc.embed_label_delta(labels[x], tb.lab, 4);
+    }
+  }
+};
+
+static void finish_compile_only(CodeHolder& code, const std::vector<Label>& data_labels, Compiled& out) {
+  code.flatten();
+  code.resolve_cross_section_fixups();
+  const CodeBuffer& tb = code.text_section()->buffer();
+  out.code.assign(tb.data(), tb.data() + tb.size());
+  size_t end = tb.size();
+  for (const Label& l : data_labels) if (code.is_label_bound(l)) end = std::min(end, (size_t)code.label_offset(l));
+  out.code_end = end;
+  out.code_size = tb.size();
+}
+
+static bool compile_a64(const Program& P, Compiled& out, bool annotate) {
+  if (g_trace) { fprintf(stderr, "--- compiling (a64) ---\n%s\n", serialise(P).c_str()); fflush(stderr); }
+  CodeHolder code;
+  ErrH eh;
+  Environment env(Arch::kAArch64);
+  Error e = code.init(env);
+  if (e != Error::kOk) { out.err = e; out.stage = "init"; return false; }
+  code.set_error_handler(&eh);
+  FileLogger flog(stderr);
+  if (g_trace) { flog.add_flags(FormatFlags::kMachineCode); code.set_logger(&flog); }
+  a64::Compiler cc(&code);
+  if (annotate) cc.add_diagnostic_options(DiagnosticOptions::kRAAnnotate);
+  A64Emitter em(cc, P);
+  em.build();
+  if (eh.err != Error::kOk) { out.err = eh.err; out.errmsg = eh.msg; out.stage = "emit"; return false; }
+  e = cc.finalize();
+  if (e != Error::kOk || eh.err != Error::kOk) { out.err = e != Error::kOk ? e : eh.err; out.errmsg = eh.msg; out.stage = "finalize"; return false; }
+  out.st.user_insts = (int)em.recs.size();
+  collect_ra_stats(cc, em.recs, out.st);
+  finish_compile_only(code, em.data_labels, out);
+  return true;
+}
+
+static const Profile kProfilesA64[] = {
+  { "a64-gp",        ARCH_A64, MODE_SSE, 4, 20,  0, 0,   0, 0, 0, 0,  4, 14,  10, 4, 0, 4, 0, 0, 0, 1,  2, 10, 1, 0 },
+  { "a64-pressure",  ARCH_A64, MODE_SSE, 30, 70, 0, 0,   0, 0, 0, 0,  5, 16,  10, 3, 0, 4, 0, 0, 0, 1,  3, 10, 1, 0 },
+  { "a64-vec",       ARCH_A64, MODE_SSE, 4, 12,  10, 60, 0, 0, 0, 4,  5, 16,  3, 1, 0, 2, 12, 0, 1, 1,  2, 10, 1, 0 },
+  { "a64-calls",     ARCH_A64, MODE_SSE, 8, 40,  4, 40,  0, 0, 2, 12, 4, 10,  5, 1, 0, 2, 3, 0, 3, 8,   2, 8,  1, 0 },
+  { "a64-jumptable", ARCH_A64, MODE_SSE, 6, 40,  0, 8,   0, 0, 0, 0,  3, 8,   8, 2, 0, 2, 1, 0, 0, 1,   4, 12, 10, 0 },
+};
+static const int kNProfilesA64 = sizeof(kProfilesA64) / sizeof(kProfilesA64[0]);
+
+// ---------------------------------------------------------------------------------------------------------------
+// Straight-line register-list programs (AArch64 ld1-ld4/st1-st4/tbl/tbx, x86 vp2intersect k-pairs, 4FMAPS blocks).
+// They cannot be executed here; the Python side symbolically executes the disassembly and compares the tokens
+// reaching every store with the expectation computed from the IR below.
+// ---------------------------------------------------------------------------------------------------------------
+
+enum : u8 { L_LD = 0, L_ST, L_TBL, L_TBX, L_MOV, L_ADD, L_P2I, L_F4 };
+struct LOp { u8 kind = 0; u8 n = 0; int v[4] = { -1, -1, -1, -1 }; int d = -1; int a = -1; int b = -1; int slot = 0; };
+struct ListProgram { int kind; int nvals; int nz; std::vector<LOp> ops; };  // kind 0: a64, 1: x86 k-pairs, 2: x86 4fmaps
+
+static std::string list_tokens_expected(const ListProgram& L, std::vector<std::string>& errors) {
+  std::vector<std::string> tok(L.nvals, "?");
+  std::string out = "[";
+  bool first = true;
+  int ord = 0;
+  for (const LOp& o : L.ops) {
+    switch (o.kind) {
+      case L_LD: { for (int j = 0; j < o.n; j++) tok[o.v[j]] = "L" + std::to_string(ord) + "." + std::to_string(j); ord++; break; }
+      case L_ST: {
+        if (!first) out += ",";
+        first = false;
+        out += "[";
+        for (int j = 0; j < o.n; j++) { if (j) out += ","; if (tok[o.v[j]] == "?") errors.push_back("store of undefined value"); out += jstr(tok[o.v[j]]); }
+        out += "]";
+        break;
+      }
+      case L_TBL: case L_TBX: {
+        std::string t = std::string(o.kind == L_TBL ? "T" : "X") + std::to_string(ord) + "(";
+        if (o.kind == L_TBX) t += tok[o.d] + "|";
+        for (int j = 0; j < o.n; j++) t += tok[o.v[j]] + ",";
+        t += "|" + tok[o.a] + ")";
+        tok[o.d] = t; ord++;
+        break;
+      }
+      case L_MOV: tok[o.d] = tok[o.a]; break;
+      case L_ADD: tok[o.d] = "A(" + tok[o.a] + "," + tok[o.b] + ")"; break;
+      case L_P2I: tok[o.v[0]] = "P" + std::to_string(ord) + ".0"; tok[o.v[1]] = "P" + std::to_string(ord) + ".1"; ord++; break;
+      case L_F4: {
+        std::string t = "F" + std::to_string(ord) + "(" + tok[o.d] + "|";
+        for (int j = 0; j < 4; j++) t += tok[o.v[j]] + ",";
+        tok[o.d] = t + ")"; ord++;
+        break;
+      }
+    }
+  }
+  return out + "]";
+}
+
+static ListProgram gen_list_program(Rng& r, int kind) {
+  ListProgram L; L.kind = kind;
+  int maxn = kind == 1 ? 2 : 4;
+  static const int nv_choices[] = { 3, 4, 6, 8, 12, 20, 34, 40 };
+  L.nvals = kind == 1 ? (int)r.range(2, 14) : nv_choices[r.below(8)];
+  L.nz = 3;
+  std::vector<char> defd(L.nvals, 0);
+  auto distinct = [&](int n, int* out, bool need_defined) -> bool {
+    for (int tries = 0; tries < 50; tries++) {
+      bool ok = true;
+      for (int j = 0; j < n && ok; j++) {
+        out[j] = (int)r.below(L.nvals);
+        if (need_defined && !defd[out[j]]) ok = false;
+        for (int k = 0; k < j; k++) if (out[k] == out[j]) ok = false;
+      }
+      if (ok) return true;
+    }
+    return false;
+  };
+  // define everything first (in lists of random length so that lead/follower roles differ later)
+  {
+    std::vector<int> order(L.nvals);
+    for (int i = 0; i < L.nvals; i++) order[i] = i;
+    for (int i = L.nvals - 1; i > 0; i--) std::swap(order[i], order[r.below(i + 1)]);
+    int i = 0;
+    while (i < L.nvals) {
+      LOp o;
+      int n = (int)r.range(1, maxn); if (i + n > L.nvals) n = L.nvals - i;
+      if (kind == 1) {
+        if (n == 2 && r.chance(1, 2)) { o.kind = L_P2I; o.n = 2; o.a = (int)r.below(L.nz); o.b = (int)r.below(L.nz); }
+        else { o.kind = L_LD; n = 1; o.n = 1; }
+      }
+      else if (kind == 2) { o.kind = L_LD; n = 1; o.n = 1; }
+      else { o.kind = L_LD; o.n = (u8)n; }
+      for (int j = 0; j < n; j++) { o.v[j] = order[i + j]; defd[order[i + j]] = 1; }
+      o.slot = (int)r.below(8);
+      L.ops.push_back(o);
+      i += n;
+    }
+  }
+  int nops = (int)r.range(4, 24);
+  for (int k = 0; k < nops; k++) {
+    LOp o;
+    int c = (int)r.below(10);
+    if (kind == 0) {
+      if (c < 3) { o.kind = L_ST; o.n = (u8)r.range(2, 4); if (o.n > L.nvals) o.n = (u8)L.nvals; if (!distinct(o.n, o.v, true)) continue; }
+      else if (c < 5) { o.kind = L_LD; o.n = (u8)r.range(2, 4); if (o.n > L.nvals) o.n = (u8)L.nvals; if (!distinct(o.n, o.v, false)) continue; for (int j = 0; j < o.n; j++) defd[o.v[j]] = 1; }
+      else if (c < 8) {
+        o.kind = r.chance(1, 3) ? L_TBX : L_TBL; o.n = (u8)r.range(1, 4); if (o.n + 1 > L.nvals) o.n = 1;
+        if (g_avoid_fwd & 256) o.n = 1;
+        if (!distinct(o.n, o.v, true)) continue;
+        o.d = (int)r.below(L.nvals); o.a = (int)r.below(L.nvals);
+        if (!defd[o.a] || (o.kind == L_TBX && !defd[o.d])) continue;
+        defd[o.d] = 1;
+      }
+      else if (c < 9) { o.kind = L_MOV; o.d = (int)r.below(L.nvals); o.a = (int)r.below(L.nvals); if (!defd[o.a]) continue; defd[o.d] = 1; }
+      else { o.kind = L_ADD; o.d = (int)r.below(L.nvals); o.a = (int)r.below(L.nvals); o.b = (int)r.below(L.nvals); if (!defd[o.a] || !defd[o.b]) continue; defd[o.d] = 1; }
+    }
+    else if (kind == 1) {
+      if (c < 4) { o.kind = L_P2I; o.n = 2; if (!distinct(2, o.v, false)) continue; o.a = (int)r.below(L.nz); o.b = (int)r.below(L.nz); defd[o.v[0]] = defd[o.v[1]] = 1; }
+      else if (c < 6) { o.kind = L_ST; o.n = 1; o.v[0] = (int)r.below(L.nvals); if (!defd[o.v[0]]) continue; }
+      else if (c < 8) { o.kind = L_ADD; o.d = (int)r.below(L.nvals); o.a = (int)r.below(L.nvals); o.b = (int)r.below(L.nvals); if (!defd[o.a] || !defd[o.b]) continue; defd[o.d] = 1; }
+      else { o.kind = L_MOV; o.d = (int)r.below(L.nvals); o.a = (int)r.below(L.nvals); if (!defd[o.a]) continue; defd[o.d] = 1; }
+    }
+    else {
+      if (c < 4) { o.kind = L_F4; o.n = 4; if (L.nvals < 5 || !distinct(4, o.v, true)) continue; o.d = (int)r.below(L.nvals); if (!defd[o.d]) continue; bool clash = false; for (int j = 0; j < 4; j++) if (o.v[j] == o.d) clash = true; if (clash) continue; }
+      else if (c < 6) { o.kind = L_ST; o.n = 1; o.v[0] = (int)r.below(L.nvals); if (!defd[o.v[0]]) continue; }
+      else if (c < 8) { o.kind = L_ADD; o.d = (int)r.below(L.nvals); o.a = (int)r.below(L.nvals); o.b = (int)r.below(L.nvals); if (!defd[o.a] || !defd[o.b]) continue; defd[o.d] = 1; }
+      else { o.kind = L_MOV; o.d = (int)r.below(L.nvals); o.a = (int)r.below(L.nvals); if (!defd[o.a]) continue; defd[o.d] = 1; }
+    }
+    o.slot = (int)r.below(8);
+    L.ops.push_back(o);
+  }
+  // keep everything alive until the end: one store per value
+  for (int i = 0; i < L.nvals; i++) { LOp o; o.kind = L_ST; o.n = 1; o.v[0] = i; o.slot = i % 8; L.ops.push_back(o); }
+  return L;
+}
+
+static std::string serialise_list(const ListProgram& L) {
+  static const char* kn[] = { "ld", "st", "tbl", "tbx", "mov", "add", "p2i", "f4" };
+  std::string s = "listprogram kind=" + std::to_string(L.kind) + " nvals=" + std::to_string(L.nvals) + "\n";
+  for (const LOp& o : L.ops) {
+    char b[160];
+    snprintf(b, sizeof b, "  %s n=%d v=[%d,%d,%d,%d] d=%d a=%d b=%d slot=%d\n", kn[o.kind], o.n, o.v[0], o.v[1], o.v[2], o.v[3], o.d, o.a, o.b, o.slot);
+    s += b;
+  }
+  return s;
+}
+
+static bool compile_list_a64(const ListProgram& L, Compiled& out) {
+  CodeHolder code; ErrH eh;
+  Environment env(Arch::kAArch64);
+  code.init(env);
+  code.set_error_handler(&eh);
+  FileLogger flog(stderr);
+  if (g_trace) { flog.add_flags(FormatFlags::kMachineCode); code.set_logger(&flog); }
+  a64::Compiler cc(&code);
+  cc.add_diagnostic_options(DiagnosticOptions::kRAAnnotate);
+  FuncNode* fn = cc.add_func(FuncSignature::build<void, void*>());
+  a64::Gp buf = cc.new_gp_ptr("buf");
+  fn->set_arg(0, buf);
+  std::vector<a64::Vec> v(L.nvals);
+  for (int i = 0; i < L.nvals; i++) v[i] = cc.new_vec_q("v%d", i);
+  std::vector<NodeRec> recs;
+  for (const LOp& o : L.ops) {
+    a64::Gp p;
+    if (o.kind == L_LD || o.kind == L_ST) { p = cc.new_gp_ptr("p"); cc.add(p, buf, Imm(o.slot * 64)); }
+    a64::Mem m = a64::ptr(p);
+    switch (o.kind) {
+      case L_LD:
+        switch (o.n) {
+          case 1: cc.ld1(v[o.v[0]].b16(), m); break;
+          case 2: cc.ld2(v[o.v[0]].s4(), v[o.v[1]].s4(), m); break;
+          case 3: cc.ld3(v[o.v[0]].s4(), v[o.v[1]].s4(), v[o.v[2]].s4(), m); break;
+          default: cc.ld4(v[o.v[0]].b16(), v[o.v[1]].b16(), v[o.v[2]].b16(), v[o.v[3]].b16(), m); break;
+        }
+        break;
+      case L_ST:
+        switch (o.n) {
+          case 1: cc.st1(v[o.v[0]].b16(), m); break;
+          case 2: if (o.slot & 1) cc.st1(v[o.v[0]].b16(), v[o.v[1]].b16(), m); else cc.st2(v[o.v[0]].s4(), v[o.v[1]].s4(), m); break;
+          case 3: cc.st3(v[o.v[0]].s4(), v[o.v[1]].s4(), v[o.v[2]].s4(), m); break;
+          default: if (o.slot & 1) cc.st1(v[o.v[0]].b16(), v[o.v[1]].b16(), v[o.v[2]].b16(), v[o.v[3]].b16(), m); else cc.st4(v[o.v[0]].b16(), v[o.v[1]].b16(), v[o.v[2]].b16(), v[o.v[3]].b16(), m); break;
+        }
+        break;
+      case L_TBL: case L_TBX: {
+        a64::Vec d = v[o.d].b16(), ix = v[o.a].b16();
+        bool x = o.kind == L_TBX;
+        switch (o.n) {
+          case 1: x ? cc.tbx(d, v[o.v[0]].b16(), ix) : cc.tbl(d, v[o.v[0]].b16(), ix); break;
+          case 2: x ? cc.tbx(d, v[o.v[0]].b16(), v[o.v[1]].b16(), ix) : cc.tbl(d, v[o.v[0]].b16(), v[o.v[1]].b16(), ix); break;
+          case 3: x ? cc.tbx(d, v[o.v[0]].b16(), v[o.v[1]].b16(), v[o.v[2]].b16(), ix) : cc.tbl(d, v[o.v[0]].b16(), v[o.v[1]].b16(), v[o.v[2]].b16(), ix); break;
+          default: x ? cc.tbx(d, v[o.v[0]].b16(), v[o.v[1]].b16(), v[o.v[2]].b16(), v[o.v[3]].b16(), ix) : cc.tbl(d, v[o.v[0]].b16(), v[o.v[1]].b16(), v[o.v[2]].b16(), v[o.v[3]].b16(), ix); break;
+        }
+        break;
+      }
+      case L_MOV: cc.mov(v[o.d].b16(), v[o.a].b16()); break;
+      case L_ADD: cc.add(v[o.d].s4(), v[o.a].s4(), v[o.b].s4()); break;
+      default: break;
+    }
+  }
+  cc.end_func();
+  if (eh.err != Error::kOk) { out.err = eh.err; out.errmsg = eh.msg; out.stage = "emit"; return false; }
+  Error e = cc.finalize();
+  if (e != Error::kOk || eh.err != Error::kOk) { out.err = e != Error::kOk ? e : eh.err; out.errmsg = eh.msg; out.stage = "finalize"; return false; }
+  collect_ra_stats(cc, recs, out.st);
+  finish_compile_only(code, std::vector<Label>(), out);
+  return true;
+}
+
+static bool compile_list_x86(const ListProgram& L, Compiled& out) {
+  using namespace x86;
+  CodeHolder code; ErrH eh;
+  Environment env(Arch::kX64);
+  CpuFeatures feats = CpuInfo::host().features();
+  feats.add(CpuFeatures::X86::kAVX512_F, CpuFeatures::X86::kAVX512_BW, CpuFeatures::X86::kAVX512_DQ, CpuFeatures::X86::kAVX512_VL,
+            CpuFeatures::X86::kAVX512_VP2INTERSECT);
+  code.init(env, feats);
+  code.set_error_handler(&eh);
+  FileLogger flog(stderr);
+  if (g_trace) { flog.add_flags(FormatFlags::kMachineCode); code.set_logger(&flog); }
+  x86::Compiler cc(&code);
+  cc.add_diagnostic_options(DiagnosticOptions::kRAAnnotate);
+  FuncNode* fn = cc.add_func(FuncSignature::build<void, void*>());
+  fn->frame().set_avx_enabled();
+  fn->frame().set_avx512_enabled();
+  Gp buf = cc.new_gp_ptr("buf");
+  fn->set_arg(0, buf);
+  std::vector<NodeRec> recs;
+  if (L.kind == 1) {
+    std::vector<KReg> k(L.nvals);
+    std::vector<Vec> z(L.nz);
+    for (int i = 0; i < L.nvals; i++) k[i] = cc.new_kq("k%d", i);
+    for (int i = 0; i < L.nz; i++) { z[i] = cc.new_zmm("z%d", i); cc.vmovdqu32(z[i], ptr(buf, 1024 + 64 * i)); }
+    for (const LOp& o : L.ops) {
+      switch (o.kind) {
+        case L_LD: cc.kmovq(k[o.v[0]], qword_ptr(buf, o.slot * 8)); break;
+        case L_ST: cc.kmovq(qword_ptr(buf, 512 + o.slot * 8), k[o.v[0]]); break;
+        case L_P2I: cc.vp2intersectd(k[o.v[0]], k[o.v[1]], z[o.a], z[o.b]); break;
+        case L_MOV: cc.kmovq(k[o.d], k[o.a]); break;
+        case L_ADD: cc.kandq(k[o.d], k[o.a], k[o.b]); break;
+        default: break;
+      }
+    }
+  }
+  else {
+    std::vector<Vec> z(L.nvals);
+    for (int i = 0; i < L.nvals; i++) z[i] = cc.new_zmm("z%d", i);
+    for (const LOp& o : L.ops) {
+      switch (o.kind) {
+        case L_LD: cc.vmovdqu32(z[o.v[0]], zmmword_ptr(buf, o.slot * 64)); break;
+        case L_ST: cc.vmovdqu32(zmmword_ptr(buf, 1024 + o.slot * 64), z[o.v[0]]); break;
+        case L_F4: break;  // 4FMAPS is not part of this AsmJit version
+        case L_MOV: cc.vmovdqa32(z[o.d], z[o.a]); break;
+        case L_ADD: cc.vpaddd(z[o.d], z[o.a], z[o.b]); break;
+        default: break;
+      }
+    }
+  }
+  cc.end_func();
+  if (eh.err != Error::kOk) { out.err = eh.err; out.errmsg = eh.msg; out.stage = "emit"; return false; }
+  Error e = cc.finalize();
+  if (e != Error::kOk || eh.err != Error::kOk) { out.err = e != Error::kOk ? e : eh.err; out.errmsg = eh.msg; out.stage = "finalize"; return false; }
+  collect_ra_stats(cc, recs, out.st);
+  finish_compile_only(code, std::vector<Label>(), out);
+  return true;
+}
+
+// ---------------------------------------------------------------------------------------------------------------
+// Compile-only work is done in a forked child so that a crash inside the register allocator (ASan/UBSan abort)
+// costs one program, not the batch. The sanitizer report still goes to stderr (the Python side turns it into a
+// violation); the parent records which program died.
+// ---------------------------------------------------------------------------------------------------------------
+
+static char* g_task_shm = nullptr;
+static const size_t TASK_SHM_SIZE = 16u << 20;
+
+struct TaskResult { bool ok = false; int sig = 0; int exitcode = 0; std::string out; };
+
+static TaskResult run_child_task(const std::function<void(std::string&)>& fn) {
+  if (!g_task_shm) {
+    g_task_shm = (char*)mmap(nullptr, TASK_SHM_SIZE, PROT_READ | PROT_WRITE, MAP_SHARED | MAP_ANONYMOUS, -1, 0);
+    if (g_task_shm == MAP_FAILED) { fprintf(stderr, "mmap failed\n"); exit(3); }
+  }
+  TaskResult r;
+  *(volatile u32*)g_task_shm = 0;
+  fflush(stdout); fflush(stderr);
+  pid_t pid = fork();
+  if (pid < 0) return r;
+  if (pid == 0) {
+    alarm(300);
+    std::string out;
+    fn(out);
+    if (out.size() + 8 > TASK_SHM_SIZE) out.resize(TASK_SHM_SIZE - 8);
+    memcpy(g_task_shm + 4, out.data(), out.size());
+    *(volatile u32*)g_task_shm = (u32)out.size() + 1;
+    _exit(0);
+  }
+  int st = 0;
+  while (waitpid(pid, &st, 0) < 0 && errno == EINTR) {}
+  if (WIFEXITED(st) && WEXITSTATUS(st) == 0 && *(volatile u32*)g_task_shm) {
+    r.ok = true;
+    r.out.assign(g_task_shm + 4, *(volatile u32*)g_task_shm - 1);
+  }
+  else { r.sig = WIFSIGNALED(st) ? WTERMSIG(st) : 0; r.exitcode = WIFEXITED(st) ? WEXITSTATUS(st) : -1; }
+  return r;
+}
+
+// child -> parent record: "OK|ERR <loads> <saves> <moves> <swaps> <rm> <user_insts>\n<payload...>"
+static std::string stats_line(const char* tag, const EmitStats& st) {
+  char b[160];
+  snprintf(b, sizeof b, "%s %d %d %d %d %d %d\n", tag, st.loads, st.saves, st.moves, st.swaps, st.rm_subst, st.user_insts);
+  return b;
+}
+static bool parse_stats_line(const std::string& s, std::string& tag, EmitStats& st, std::string& payload) {
+  size_t nl = s.find('\n');
+  if (nl == std::string::npos) return false;
+  char t[16] = {0};
+  if (sscanf(s.c_str(), "%15s %d %d %d %d %d %d", t, &st.loads, &st.saves, &st.moves, &st.swaps, &st.rm_subst, &st.user_insts) != 7) return false;
+  tag = t; payload = s.substr(nl + 1);
+  return true;
+}
+
+struct ViolationOut;
+static void add_violation(std::vector<ViolationOut>& viols, const std::string& key, const std::string& what, const std::string& witness, u64 index);
+
 static bool run_other_mode(const std::string& mode, const Args& args, Counters& ctr, std::vector<ViolationOut>& viols,
                            std::vector<std::string>& harness_errors, std::string& extra_json) {
-  (void)mode; (void)args; (void)ctr; (void)viols; (void)harness_errors; (void)extra_json;
+  u64 seed = args.u64("seed", 1), first = args.u64("first", 0), count = args.u64("count", 10);
+  bool annotate = args.u64("annotate", 1) != 0;
+  if (mode == "a64") {
+    std::string progs = "[";
+    bool firstp = true;
+    for (u64 idx = first; idx < first + count; idx++) {
+      Rng pr = Rng(seed * 0x9E3779B97F4A7C15ull + 0xA64).fork(idx + 0xA640000);
+      Profile pfl = kProfilesA64[idx % kNProfilesA64];
+      Program P = gen_program(pr, pfl, -1);
+      if (args.has("dump")) printf("%s\n", serialise(P).c_str());
+      count_program(ctr, P);
+      u64 ph = program_hash(P);
+      ctr.distinct_all.insert(ph);
+      ctr.shapes_seen.insert(cfg_shape_hash(P));
+      ctr.max_live = std::max(ctr.max_live, measure_max_live(P));
+      ctr.evaluations++;
+      TaskResult tr = run_child_task([&](std::string& out) {
+        Compiled comp;
+        bool ok = compile_a64(P, comp, annotate);
+        if (!ok) { out = stats_line("ERR", comp.st) + std::string(DebugUtils::error_as_string(comp.err)) + "\n" + comp.stage + ": " + comp.errmsg; return; }
+        out = stats_line("OK", comp.st) + "{\"index\":" + std::to_string(idx) + ",\"profile\":" + jstr(P.profile) + ",\"code_end\":" + std::to_string(comp.code_end) +
+              ",\"user_insts\":" + std::to_string(comp.st.user_insts) + ",\"hex\":\"" + hexstr(comp.code.data(), comp.code.size()) + "\"}";
+      });
+      std::string tag, payload; EmitStats st;
+      if (!tr.ok || !parse_stats_line(tr.out, tag, st, payload)) {
+        ctr.compile_errors++;
+        add_violation(viols, "a64:ra-crash:" + P.profile, "the AArch64 Compiler crashed (signal " + std::to_string(tr.sig) + ", exit code " + std::to_string(tr.exitcode) +
+                      ", see sanitizer report) while compiling program index=" + std::to_string(idx) + " profile=" + P.profile, serialise(P), idx);
+        continue;
+      }
+      if (tag == "ERR") {
+        ctr.compile_errors++;
+        std::string ec = payload.substr(0, payload.find('\n'));
+        add_violation(viols, std::string("a64:finalize-error:") + ec, "AArch64 Compiler failed: " + payload + " profile=" + P.profile + " index=" + std::to_string(idx),
+                      serialise(P), idx);
+        continue;
+      }
+      ctr.loads += st.loads; ctr.saves += st.saves; ctr.moves += st.moves; ctr.swaps += st.swaps; ctr.user_insts += st.user_insts;
+      if (st.nontrivial()) { ctr.nontrivial++; ctr.distinct_nontrivial.insert(ph); }
+      if (!firstp) progs += ",";
+      firstp = false;
+      progs += payload;
+    }
+    extra_json = ",\"compiled\":" + progs + "]";
+    return true;
+  }
+  if (mode == "a64lists" || mode == "x86lists") {
+    std::string progs = "[";
+    bool firstp = true;
+    for (u64 idx = first; idx < first + count; idx++) {
+      Rng pr = Rng(seed * 0x9E3779B97F4A7C15ull + 0x115).fork(idx + (mode == "a64lists" ? 0x1150000 : 0x1160000));
+      int kind = mode == "a64lists" ? 0 : 1;  // x86: only vp2intersect{d|q} needs consecutive registers in this AsmJit version
+      ListProgram L = gen_list_program(pr, kind);
+      std::vector<std::string> errs;
+      std::string expect = list_tokens_expected(L, errs);
+      if (!errs.empty()) { harness_errors.push_back("list program " + std::to_string(idx) + ": " + errs[0]); continue; }
+      ctr.programs++; ctr.evaluations++;
+      std::string ser = serialise_list(L);
+      u64 ph = fnv1a(ser.data(), ser.size());
+      ctr.distinct_all.insert(ph);
+      ctr.max_live = std::max(ctr.max_live, L.nvals);
+      for (const LOp& o : L.ops) { static const char* kn[] = { "list-load", "list-store", "tbl", "tbx", "mov", "add", "vp2intersect", "v4fmaddps" }; ctr.ops_by_kind[kn[o.kind]]++; }
+      if (g_trace) { fprintf(stderr, "--- compiling list program %llu ---\n%s\n", (unsigned long long)idx, ser.c_str()); fflush(stderr); }
+      std::string cls = kind == 0 ? "a64" : "x64";
+      bool has_tbl = false; for (const LOp& o : L.ops) if ((o.kind == L_TBL || o.kind == L_TBX) && o.n > 1) has_tbl = true;
+      std::string what = kind == 0 ? (has_tbl ? "lists-with-tbl" : "lists") : (kind == 1 ? "vp2intersect" : "v4fmaddps");
+      TaskResult tr = run_child_task([&](std::string& out) {
+        Compiled comp;
+        bool ok = kind == 0 ? compile_list_a64(L, comp) : compile_list_x86(L, comp);
+        if (!ok) { out = stats_line("ERR", comp.st) + std::string(DebugUtils::error_as_string(comp.err)) + "\n" + comp.stage + ": " + comp.errmsg; return; }
+        out = stats_line("OK", comp.st) + "{\"index\":" + std::to_string(idx) + ",\"kind\":" + std::to_string(kind) + ",\"nvals\":" + std::to_string(L.nvals) +
+              ",\"expect\":" + expect + ",\"ir\":" + jstr(ser) + ",\"hex\":\"" + hexstr(comp.code.data(), comp.code.size()) + "\"}";
+      });
+      std::string tag, payload; EmitStats st;
+      if (!tr.ok || !parse_stats_line(tr.out, tag, st, payload)) {
+        ctr.compile_errors++;
+        add_violation(viols, cls + ":ra-crash:" + what + (L.nvals > 32 ? ":pressure" : ""), "the Compiler crashed (signal " + std::to_string(tr.sig) + ", exit code " +
+                      std::to_string(tr.exitcode) + ", see sanitizer report) on a register-list program index=" + std::to_string(idx), ser, idx);
+        continue;
+      }
+      if (tag == "ERR") {
+        ctr.compile_errors++;
+        std::string ec = payload.substr(0, payload.find('\n'));
+        add_violation(viols, cls + ":finalize-error:" + what + ":" + ec, "Compiler failed on a register-list program: " + payload + " index=" + std::to_string(idx), ser, idx);
+        continue;
+      }
+      ctr.loads += st.loads; ctr.saves += st.saves; ctr.moves += st.moves; ctr.swaps += st.swaps;
+      if (st.nontrivial()) { ctr.nontrivial++; ctr.distinct_nontrivial.insert(ph); }
+      if (!firstp) progs += ",";
+      firstp = false;
+      progs += payload;
+    }
+    extra_json = ",\"compiled\":" + progs + "]";
+    return true;
+  }
   return false;
+}
+
+
+// ---------------------------------------------------------------------------------------------------------------
+// Probes: small hand-written programs for constructs that were found defective. A failing probe is reported under a
+// stable key and tells the Python side which construct the random generator has to avoid (so that one known defect
+// does not mask everything else); a passing probe re-enables the construct automatically.
+// ---------------------------------------------------------------------------------------------------------------
+
+struct ProbeBuilder {
+  Program P;
+  ProbeBuilder(u8 mode = MODE_SSE, u8 sigclass = 0) {
+    P.arch = ARCH_X64; P.mode = mode; P.profile = "probe"; P.shape = "probe"; P.sigclass = sigclass;
+    P.argbind.assign(kSigClasses[sigclass].ni + kSigClasses[sigclass].nd, -1);
+    P.blocks.resize(2);
+    P.fuel = val(KIND_G, 4, false);
+    Op o; o.opc = O_MOV; o.w = 4; o.d = P.fuel; o.s = SI(30); P.blocks[0].ops.push_back(o);
+    P.fuel_init = 30;
+  }
+  int val(u8 kind, u8 size, bool dumped = true) { ValDef d; d.kind = kind; d.size = size; d.dumped = dumped; P.vals.push_back(d); return (int)P.vals.size() - 1; }
+  int nblock() { P.blocks.emplace_back(); return (int)P.blocks.size() - 1; }
+  std::vector<Op>& ops(int b = 1) { return P.blocks[b].ops; }
+  static MemRef M(int off) { MemRef m; m.off = off; return m; }
+  void load(int v, int off, int b = 0) {
+    const ValDef& d = P.vals[v];
+    Op o; o.d = v; o.w = d.size; o.s = SM(M(off));
+    o.opc = d.kind == KIND_G ? O_MOV : d.kind == KIND_V ? O_VMOV : d.kind == KIND_K ? O_KLOAD : O_DLOAD;
+    P.blocks[b].ops.push_back(o);
+  }
+  void call0(int b = 1) { Op o; o.opc = O_CALL; o.imm = 0; ops(b).push_back(o); }
+  void finish(int retval) {
+    int fin = nblock();
+    for (int vi = 0; vi < (int)P.vals.size(); vi++) {
+      const ValDef& d = P.vals[vi];
+      if (!d.dumped) continue;
+      Op q; MemRef m; m.off = DUMP_OFF + vi * 64;
+      if (d.kind == KIND_G) { q.opc = O_STORE; q.w = d.size; q.s = SR(vi); q.s2 = SM(m); }
+      else if (d.kind == KIND_V) { q.opc = O_VSTORE; q.w = d.size; q.a = vi; q.s2 = SM(m); }
+      else if (d.kind == KIND_K) { q.opc = O_KSTORE; q.w = d.size; q.a = vi; q.s2 = SM(m); }
+      else { q.opc = O_DSTORE; q.a = vi; q.s2 = SM(m); }
+      P.blocks[fin].ops.push_back(q);
+    }
+    P.blocks[fin].term.kind = T_RET;
+    P.retval = retval;
+    compute_fuel_flags(P);
+  }
+};
+
+struct ProbeDef { const char* name; u32 avoid_bit; bool needs512; const char* what; };
+static const ProbeDef kProbes[] = {
+  { "cmpxchg-accumulator", AV_CMPXCHG, false, "cmpxchg [mem], src, acc: the accumulator written on a failed compare is lost (treated as read-only)" },
+  { "same-reg-idiom-narrow", AV_SAMEREG_NARROW, false, "sub/xor r8,r8 on a 64-bit virtual register is treated as a write of the whole register" },
+  { "reg-to-mem-32bit-rmw", AV_RMW32_ON64, false, "32-bit read-modify-write on a spilled 64-bit virtual register is rewritten to a memory operand and loses the zero extension" },
+  { "reg-to-mem-high-byte", AV_HI8, false, "AH/BH/CH/DH operand of a spilled virtual register is rewritten to the low byte of its home slot" },
+  { "reg-to-mem-kmovw", AV_KMOVW_TOG, true, "kmovw r32, k with a spilled k register is rewritten to an invalid memory form" },
+  { "vector-argument-avx512", AV_VECARG_AVX512, true, "vector function argument assigned to xmm16..31 makes finalize fail with InvalidPhysId" },
+  { "or-mem-all-ones", AV_OR_MEM_M1, false, "or [mem], -1 marks the base register of the memory operand write-only" },
+  { "and-reg-zero", AV_AND_ZERO, false, "and reg, 0 is treated as not changing the register" },
+  { "same-reg-idiom-narrow-vector", AV_SAMEREG_NARROW_VEC, false, "vpminud/vpand/... xmm,xmm,xmm with one 256-bit virtual register is treated as read-only although it clears the upper half" },
+  { "a64-tbl-register-list", AV_A64_TBL_MULTI, false, "AArch64 tbl/tbx with a table of 2..4 registers: the allocator does not know that the table registers must be consecutive" },
+  { "unreachable-predecessor", 0x80000000u, false, "an unreachable block that flows into a reachable loop crashes the liveness analysis" },
+};
+static const int kNProbes = sizeof(kProbes) / sizeof(kProbes[0]);
+
+static Program build_probe(const std::string& name) {
+  if (name == "cmpxchg-accumulator") {
+    ProbeBuilder b;
+    int acc = b.val(KIND_G, 8), src = b.val(KIND_G, 8);
+    b.load(acc, 0); b.load(src, 8);
+    b.call0();
+    Op o; o.opc = O_CMPXCHG; o.w = 8; o.a = src; o.c = acc; o.s2 = SM(ProbeBuilder::M(16)); b.ops().push_back(o);
+    b.call0();
+    b.finish(acc);
+    return b.P;
+  }
+  if (name == "same-reg-idiom-narrow") {
+    ProbeBuilder b;
+    int v = b.val(KIND_G, 8), w = b.val(KIND_G, 8);
+    b.load(v, 0); b.load(w, 8);
+    b.call0();
+    Op o; o.opc = O_ALU; o.sub = A_SUB; o.w = 1; o.d = v; o.s = SR(v); b.ops().push_back(o);
+    Op q; q.opc = O_ALU; q.sub = A_XOR; q.w = 2; q.d = w; q.s = SR(w); b.ops().push_back(q);
+    b.finish(v);
+    return b.P;
+  }
+  if (name == "reg-to-mem-32bit-rmw") {
+    ProbeBuilder b;
+    std::vector<int> v;
+    for (int i = 0; i < 24; i++) { v.push_back(b.val(KIND_G, 8)); b.load(v.back(), 8 * i); }
+    for (int rnd = 0; rnd < 2; rnd++)
+      for (int i = 0; i < 24; i++) {
+        Op o; o.w = 4; o.d = v[i];
+        if ((i + rnd) % 3 == 0) { o.opc = O_ALU; o.sub = A_ADD; o.s = SI(1); }
+        else if ((i + rnd) % 3 == 1) { o.opc = O_SHI; o.sub = SH_SHR; o.imm = 1; }
+        else { o.opc = O_UN; o.sub = U_NOT; }
+        b.ops().push_back(o);
+      }
+    b.finish(v[0]);
+    return b.P;
+  }
+  if (name == "reg-to-mem-high-byte") {
+    ProbeBuilder b;
+    std::vector<int> v;
+    for (int i = 0; i < 24; i++) { v.push_back(b.val(KIND_G, 4)); b.load(v.back(), 4 * i); }
+    for (int i = 0; i < 24; i++) {
+      Op o; o.opc = O_HI8; o.w = 1; o.sub = (u8)(i % 3 == 0 ? 3 : i % 3 == 1 ? 2 : 0); o.d = v[i]; o.a = v[(i + 7) % 24]; o.imm = 0x5A;
+      b.ops().push_back(o);
+    }
+    b.finish(v[0]);
+    return b.P;
+  }
+  if (name == "reg-to-mem-kmovw") {
+    ProbeBuilder b(MODE_AVX512);
+    std::vector<int> k, g;
+    for (int i = 0; i < 12; i++) { k.push_back(b.val(KIND_K, 2)); b.load(k.back(), 2 * i); }
+    for (int i = 0; i < 12; i++) g.push_back(b.val(KIND_G, 4));
+    for (int i = 0; i < 12; i++) { Op o; o.opc = O_KTOG; o.w = 2; o.d = g[i]; o.a = k[i]; b.ops().push_back(o); }
+    b.finish(g[0]);
+    return b.P;
+  }
+  if (name == "vector-argument-avx512") {
+    ProbeBuilder b(MODE_AVX512, 2);
+    const SigClass& sc = kSigClasses[2];
+    std::vector<int> d;
+    for (int i = 0; i < sc.nd; i++) { d.push_back(b.val(KIND_D, 8)); b.P.argbind[sc.ni + i] = d.back(); }
+    std::vector<int> z;
+    for (int i = 0; i < 22; i++) { z.push_back(b.val(KIND_V, 64)); b.load(z.back(), (i % 7) * 64); }
+    for (int rnd = 0; rnd < 4; rnd++)
+      for (int i = 0; i < 22; i++) { Op o; o.opc = O_VALU; o.sub = VA_PADDD; o.w = 64; o.d = z[i]; o.a = z[i]; o.s = SR(z[(i + 1 + rnd) % 22]); b.ops().push_back(o); }
+    b.finish(-1);
+    return b.P;
+  }
+  if (name == "or-mem-all-ones") {
+    ProbeBuilder b;
+    int x = b.val(KIND_G, 8);
+    b.load(x, 0);
+    b.call0();
+    Op o; o.opc = O_ALUM; o.sub = A_OR; o.w = 4; o.s = SI(-1); o.s2 = SM(ProbeBuilder::M(8)); b.ops().push_back(o);
+    b.call0();
+    Op q; q.opc = O_ALUM; q.sub = A_OR; q.w = 8; q.s = SI(-1); q.s2 = SM(ProbeBuilder::M(24)); b.ops().push_back(q);
+    b.finish(x);
+    return b.P;
+  }
+  if (name == "and-reg-zero") {
+    ProbeBuilder b;
+    int v = b.val(KIND_G, 8), w = b.val(KIND_G, 2);
+    b.load(v, 0); b.load(w, 8);
+    b.call0();
+    { Op st; st.opc = O_STORE; st.w = 8; st.s = SR(v); st.s2 = SM(ProbeBuilder::M(32)); b.ops().push_back(st); }
+    { Op st; st.opc = O_STORE; st.w = 2; st.s = SR(w); st.s2 = SM(ProbeBuilder::M(40)); b.ops().push_back(st); }
+    Op o; o.opc = O_ALU; o.sub = A_AND; o.w = 8; o.d = v; o.s = SI(0); b.ops().push_back(o);
+    Op q; q.opc = O_ALU; q.sub = A_AND; q.w = 2; q.d = w; q.s = SI(0); b.ops().push_back(q);
+    b.call0();
+    b.finish(v);
+    return b.P;
+  }
+  if (name == "same-reg-idiom-narrow-vector") {
+    ProbeBuilder b(MODE_AVX);
+    int y = b.val(KIND_V, 32), y2 = b.val(KIND_V, 32);
+    b.load(y, 0); b.load(y2, 64);
+    b.call0();
+    { Op st; st.opc = O_VSTORE; st.w = 32; st.a = y; st.s2 = SM(ProbeBuilder::M(128)); b.ops().push_back(st); }
+    { Op st; st.opc = O_VSTORE; st.w = 32; st.a = y2; st.s2 = SM(ProbeBuilder::M(160)); b.ops().push_back(st); }
+    Op o; o.opc = O_VALU; o.sub = VA_PMINUD; o.w = 16; o.d = y; o.a = y; o.s = SR(y); b.ops().push_back(o);
+    Op q; q.opc = O_VALU; q.sub = VA_PAND; q.w = 16; q.d = y2; q.a = y2; q.s = SR(y2); b.ops().push_back(q);
+    b.call0();
+    b.finish(-1);
+    return b.P;
+  }
+  // unreachable-predecessor
+  ProbeBuilder b;
+  int a = b.val(KIND_G, 4), c = b.val(KIND_G, 4);
+  b.load(a, 0);
+  { Op o; o.opc = O_MOV; o.w = 4; o.d = c; o.s = SI(3); b.P.blocks[0].ops.push_back(o); }
+  b.P.blocks[1].term.kind = T_JMP; b.P.blocks[1].term.target = 3;
+  int u = b.nblock();   // block 2: unreachable, falls through into the loop
+  { Op o; o.opc = O_ALU; o.sub = A_ADD; o.w = 4; o.d = a; o.s = SI(1); b.P.blocks[u].ops.push_back(o); }
+  int l = b.nblock();   // block 3: loop
+  { Op o; o.opc = O_ALU; o.sub = A_ADD; o.w = 4; o.d = a; o.s = SR(c); b.P.blocks[l].ops.push_back(o); }
+  b.P.blocks[l].term.kind = T_DEC; b.P.blocks[l].term.a = c; b.P.blocks[l].term.w = 4; b.P.blocks[l].term.target = l;
+  b.finish(a);
+  return b.P;
+}
+
+static bool run_probe_mode(const Args& args, Counters& ctr, std::vector<ViolationOut>& viols, std::vector<std::string>& harness_errors, std::string& extra_json,
+                           bool host512) {
+  std::string only = args.str("name", "");
+  int ninputs = (int)args.u64("inputs", 16);
+  JitRuntime rt; g_rt = &rt;
+  init_exec_env();
+  std::string failed = "[";
+  for (int i = 0; i < kNProbes; i++) {
+    const ProbeDef& pd = kProbes[i];
+    if (!only.empty() && only != pd.name) continue;
+    if (pd.needs512 && !host512) continue;
+    if (std::string(pd.name) == "a64-tbl-register-list") {
+      ListProgram L; L.kind = 0; L.nvals = 6; L.nz = 0;
+      { LOp o; o.kind = L_LD; o.n = 4; o.v[0] = 0; o.v[1] = 1; o.v[2] = 2; o.v[3] = 3; L.ops.push_back(o); }
+      { LOp o; o.kind = L_LD; o.n = 2; o.v[0] = 4; o.v[1] = 5; L.ops.push_back(o); }
+      { LOp o; o.kind = L_TBL; o.n = 2; o.v[0] = 3; o.v[1] = 1; o.d = 4; o.a = 5; L.ops.push_back(o); }
+      { LOp o; o.kind = L_TBX; o.n = 3; o.v[0] = 2; o.v[1] = 0; o.v[2] = 5; o.d = 4; o.a = 1; L.ops.push_back(o); }
+      for (int k = 0; k < 6; k++) { LOp o; o.kind = L_ST; o.n = 1; o.v[0] = k; o.slot = k; L.ops.push_back(o); }
+      ctr.programs++; ctr.evaluations++;
+      TaskResult tr = run_child_task([&](std::string& out) {
+        Compiled comp;
+        bool ok = compile_list_a64(L, comp);
+        out = ok ? "0\n" : std::string("4\n") + "Compiler " + comp.stage + " failed: " + DebugUtils::error_as_string(comp.err) + " (" + comp.errmsg + ")";
+      });
+      if (tr.ok && atoi(tr.out.c_str()) == 0) continue;
+      if (failed.size() > 1) failed += ",";
+      failed += "{\"name\":" + jstr(pd.name) + ",\"avoid\":" + std::to_string(pd.avoid_bit) + "}";
+      std::string w = tr.ok ? tr.out.substr(tr.out.find('\n') + 1) : std::string("the Compiler crashed (see sanitizer report)");
+      add_violation(viols, std::string("a64:probe:") + pd.name, std::string(pd.what) + " -- observed: " + w, serialise_list(L), (u64)i);
+      continue;
+    }
+    Program P = build_probe(pd.name);
+    if (g_trace) fprintf(stderr, "%s\n", serialise(P).c_str());
+    count_program(ctr, P);
+    ctr.evaluations++;
+    Rng ir(0xC05 + i);
+    std::vector<RunInput> inputs;
+    make_inputs(ir, ninputs, inputs);
+    TaskResult tr = run_child_task([&](std::string& out) {
+      Compiled comp;
+      Verdict v = check_program(P, inputs, comp, nullptr, true);
+      out = std::to_string(v.kind) + "\n" + v.what;
+    });
+    int kind = -1; std::string what;
+    if (tr.ok) { kind = atoi(tr.out.c_str()); what = tr.out.substr(tr.out.find('\n') + 1); }
+    if (tr.ok && kind == 5) { harness_errors.push_back(std::string("probe ") + pd.name + ": " + what); continue; }
+    if (tr.ok && kind == 0) continue;
+    if (failed.size() > 1) failed += ",";
+    failed += "{\"name\":" + jstr(pd.name) + ",\"avoid\":" + std::to_string(pd.avoid_bit) + "}";
+    std::string w = tr.ok ? what : ("the Compiler crashed (signal " + std::to_string(tr.sig) + ", exit code " + std::to_string(tr.exitcode) + ", see sanitizer report)");
+    add_violation(viols, std::string("x64:probe:") + pd.name, std::string(pd.what) + " -- observed: " + w, serialise(P), (u64)i);
+  }
+  extra_json = ",\"probe_failed\":" + failed + "]";
+  return true;
 }
 
 // ---------------------------------------------------------------------------------------------------------------
@@ -3413,6 +4338,9 @@ int main(int argc, char** argv) {
     }
     progs += "]";
     extra_json = ",\"compiled\":" + progs;
+  }
+  else if (mode == "probe") {
+    run_probe_mode(args, ctr, viols, harness_errors, extra_json, host512);
   }
   else if (!run_other_mode(mode, args, ctr, viols, harness_errors, extra_json)) {
     fprintf(stderr, "unknown mode %s\n", mode.c_str());
